@@ -13,15 +13,15 @@ def nfun(b):
     return len(b['knots']) - b['order'] - (b['periodic'] + 1)
 
 
-def gen_obj(rng, pardim=None, dim=None, rational=None, kinds=None, pmax=None, nint_max=None, big_periodic=False):
+def gen_obj(rng, pardim=None, dim=None, rational=None, kinds=None, pmax=None, nint_max=None, big_periodic=False, dir_kinds=None, multi=None):
     pardim = pardim or rng.choice([1, 1, 2, 2, 3])
     pmax = pmax or {1: 6, 2: 4, 3: 3}[pardim]
     nint_max = nint_max if nint_max is not None else {1: 5, 2: 3, 3: 2}[pardim]
     bases = []
-    for _ in range(pardim):
-        kind = rng.choice(kinds or ['open', 'open', 'open', 'periodic', 'nonopen'])
+    for d_ in range(pardim):
+        kind = dir_kinds[d_] if dir_kinds else rng.choice(kinds or ['open', 'open', 'open', 'periodic', 'nonopen'])
         while True:
-            b = G.gen_basis(rng, kind=kind, pmax=pmax, nint_max=nint_max + (3 if big_periodic and kind == 'periodic' else 0))
+            b = G.gen_basis(rng, kind=kind, pmax=pmax, nint_max=nint_max + (3 if big_periodic and kind == 'periodic' else 0), multi=multi)
             if b['order'] >= 2 and nfun(b) >= 1:
                 # big_periodic: periodic directions with at least order+continuity functions (the range in which the
                 # library's periodic algorithms are defined; the small ones are covered by recorded findings)
